@@ -1,6 +1,7 @@
 package main
 
 import (
+	"math/rand"
 	"fmt"
 	"sort"
 	"strconv"
@@ -230,6 +231,12 @@ func (w *world) handshakes(r *rng.R) {
 }
 
 func (w *world) runTasks() {
+	ev := w.runTasksEvent()
+	w.record(ev)
+}
+
+// runTasksEvent runs the queued tasks and returns the event (2 orders) without recording it
+func (w *world) runTasksEvent() sx.V {
 	before := map[*stepper.Peer]int{}
 	for _, b := range w.s.Backends {
 		before[b] = len(w.received(b))
@@ -247,7 +254,51 @@ func (w *world) runTasks() {
 			orders = append(orders, sx.L(sx.S(a), sx.I(k), sx.L(slots...)))
 		}
 	}
-	w.record(sx.L(sx.I(2), sx.L(orders...)))
+	return sx.L(sx.I(2), sx.L(orders...))
+}
+
+// probe: one ticker round.  OnTicker picks a node at random, takes a connection from its pool
+// (dialling if need be) and schedules the CLUSTER NODES probe on it.  Which node it was shows in
+// the dial record or in who receives the probe once the tasks have run.
+func (w *world) probe(seed int64) {
+	clusterCount := func(b *stepper.Peer) int {
+		n := 0
+		for _, r := range w.received(b) {
+			if strings.ToLower(string(r[0])) == "cluster" {
+				n++
+			}
+		}
+		return n
+	}
+	pre := map[*stepper.Peer]int{}
+	for _, b := range w.s.Backends {
+		pre[b] = clusterCount(b)
+	}
+	dials0 := len(w.s.Dials)
+	rand.Seed(seed)
+	w.s.L.Tick()
+	obs1 := w.observe()
+	ev2 := w.runTasksEvent()
+	obs2 := w.observe()
+	addr := ""
+	if len(w.s.Dials) > dials0 {
+		addr = w.s.Dials[len(w.s.Dials)-1]
+	} else {
+		for _, b := range w.s.Backends {
+			if clusterCount(b) > pre[b] {
+				addr = b.Addr
+			}
+		}
+	}
+	if addr == "" {
+		// nothing observable happened (the chosen pool gave no connection and did not dial)
+		w.events = append(w.events, ev2)
+		w.obs = append(w.obs, obs2)
+		return
+	}
+	w.events = append(w.events, sx.L(sx.I(7), sx.S(addr)), ev2)
+	w.obs = append(w.obs, obs1, obs2)
+	w.tagset["probe"] = true
 }
 
 func (w *world) backendData(p *stepper.Peer, b []byte) {
@@ -396,7 +447,16 @@ func (w *world) nextRequest(r *rng.R, c int) []byte {
 		}
 		return out
 	}
-	switch r.Intn(24) {
+	switch r.Intn(27) {
+	case 24: // AUTH from a client: right password, wrong password, or no password configured
+		w.tagset["local-reply"] = true
+		w.tagset["auth"] = true
+		return bulk([]byte(r.Pick("AUTH", "auth")), []byte(r.Pick("pw", "pw", "wrong", "")))
+	case 25: // a script: routed by its first key (third argument), forwarded verbatim
+		w.tagset["eval"] = true
+		return bulk([]byte(r.Pick("EVAL", "eval", "evalsha")), []byte("return 1"), []byte("1"), key(""))
+	case 26: // other single-key commands of the table, upper/lower case
+		return bulk([]byte(r.Pick("INCR", "ttl", "LLEN", "hgetall", "Exists", "type")), key(""))
 	case 22: // a split request one of whose fragments is redirected
 		w.tagset["split-redirect"] = true
 		mark := r.Pick("mov", "ask", "mov", "movx")
@@ -573,6 +633,13 @@ func runHistory(seed uint64, idx int, quick bool) (in sx.V, out sx.V, tags []str
 				w.closeBackend(w.s.Backends[r.Intn(len(w.s.Backends))])
 				w.tagset["backend-close"] = true
 			}
+		case 18:
+			if r.Chance(60) {
+				w.probe(int64(r.U64() >> 1))
+				w.handshakes(r)
+			} else {
+				w.runTasks()
+			}
 		case 17:
 			if cfg.timeout {
 				w.runTasks()
@@ -653,6 +720,19 @@ func runDeepHistory(seed uint64, idx int) (in sx.V, out sx.V, tags []string) {
 }
 
 func suiteLoop(c *Ctx) {
+	topoN := 60
+	if !c.Quick() {
+		topoN = 1500
+	}
+	for i := 0; i < topoN; i++ {
+		var in, out sx.V
+		var tags []string
+		o := Safe(func() sx.V { in, out, tags = runTopoHistory(c.Seed, i); return out })
+		if in == nil {
+			in = sx.L()
+		}
+		c.Emit("loop", in, o, tags...)
+	}
 	deep := 1
 	if !c.Quick() {
 		deep = 6
